@@ -49,6 +49,8 @@ def KeySizeLimit : Nat := 1024
 def ensureBucket (cfg : Cfg) (m : Mem) (b : Bytes) : Mem × Res Unit :=
   if m.bucketExists b then (m, .ok ())
   else if cfg.autoBucket then
+    -- a bucket created on the fly is a bucket like any other (fix: D38): the name is validated
+    if !validateBucketName b then (m, .err .InvalidBucketName) else
     match m.createBucket b with
     | (m', .ok _) => (m', .ok ())
     | (m', _) => (m', .err .NoSuchBucket)
